@@ -1,6 +1,11 @@
 import UPVerif.Core.Sexp
 import UPVerif.Drv.C33
 import UPVerif.Drv.Den
+import UPVerif.Drv.C28
+import UPVerif.Drv.C20
+import UPVerif.Drv.C15
+import UPVerif.Drv.C14
+import UPVerif.Drv.C13
 import UPVerif.Drv.C25
 import UPVerif.Drv.C34
 import UPVerif.Drv.C16
@@ -27,6 +32,11 @@ def handlers : List (String × (Sexp → Sexp)) := [
   ("C16", Drv.C16.handle),
   ("C34", Drv.C34.handle),
   ("C25", Drv.C25.handle),
+  ("C13", Drv.C13.handle),
+  ("C14", Drv.C14.handle),
+  ("C15", Drv.C15.handle),
+  ("C20", Drv.C20.handle),
+  ("C28", Drv.C28.handle),
   ("ECHO", Drv.Den.handleEcho),
   ("DEN", Drv.Den.handleDen)
 ]
